@@ -3,6 +3,7 @@ package main
 // SMT-LIB2 back end: one long-lived solver process per worker.
 
 import (
+	"os"
 	"bufio"
 	"fmt"
 	"io"
@@ -240,6 +241,7 @@ func (s *Solver) Check(pc []*Term, extra *Term, keep bool) (SatResult, error) {
 		break
 	}
 	s.SolveTime += time.Since(t0)
+	slowQuery(t0, res, extra)
 	if res == Unknown {
 		s.Pop()
 		t1 := time.Now()
@@ -276,6 +278,7 @@ func (s *Solver) CheckModel(pc []*Term, extra *Term, ts []*Term) (SatResult, []M
 	s.Queries++
 	res, err := s.readResult()
 	s.SolveTime += time.Since(t0)
+	slowQuery(t0, res, extra)
 	if err != nil {
 		s.Pop()
 		return Unknown, nil, err
@@ -733,4 +736,27 @@ func parseVal(v string) (ModelVal, error) {
 		}
 	}
 	return ModelVal{}, fmt.Errorf("cannot parse model value %q", v)
+}
+
+var slowQms = func() float64 {
+	var v float64
+	fmt.Sscan(os.Getenv("SYMGO_SLOWQ"), &v)
+	return v
+}()
+
+// slowQuery logs queries slower than $SYMGO_SLOWQ milliseconds (debugging aid).
+func slowQuery(t0 time.Time, res SatResult, extra *Term) {
+	if slowQms <= 0 {
+		return
+	}
+	if d := time.Since(t0); d.Seconds()*1000 > slowQms {
+		e := "<pc only>"
+		if extra != nil {
+			e = extra.String()
+			if len(e) > 300 {
+				e = e[:300] + "…"
+			}
+		}
+		fmt.Fprintf(os.Stderr, "slow query %.2fs %s: %s\n", d.Seconds(), res, e)
+	}
 }
